@@ -261,6 +261,7 @@ def _behaviour_slice(args):
             s = s[:60]
             cands.append(s)
             cands.append(sg.mutate(s))
+            cands.extend(lib.partner_variants(s, 2))
         for _ in range(per // 2 + 1):
             cands.append("".join(rng.choice(alph) for _ in range(rng.randint(0, 3))))
         seen = set()
